@@ -96,7 +96,7 @@ PROPS = {
     },
     "C10": {
         "claim": 'Refinement to the documented contract: for every script of every length the in-session and session-less send loops return exactly what the fold `expected`/`slExpected` (first acceptable non-temporary response ends the call; busy/timeout codes and unacceptable replies retransmit; a lost reply is retried outside a session, terminal inside) prescribes, transmit exactly that many datagrams, and every transmission is the complete datagram for the same command (in session: datagramOf keys cmd (counter+i) iv_i; outside: the one serialised buffer).',
-        "note": "trusted: Lean kernel; the byte-level model of V2Session.buildAndSend / V2Sessionless.buildAndSendCommand (hand-written; tied by a byte-exact correspondence run: every transmitted datagram, the result and the final counter, against the real SendCommand after a real handshake, crypto/rand replaced by an entropy stream); HMAC/AES assumed lawful (abstract Ops); backoff.Retry + context modelled as 'the script runs out'; the reference BMC in the harness (sim.go) is an independent Go transcription of the spec used for the model-free verdicts Handshake payload retries (buildAndSendPayload) are covered by the C01/C02 handshake correspondence, not by a separate Lean theorem here.",
+        "note": "trusted: Lean kernel; the byte-level model of V2Session.buildAndSend / V2Sessionless.buildAndSendCommand (hand-written; tied by a byte-exact correspondence run: every transmitted datagram, the result and the final counter, against the real SendCommand after a real handshake, crypto/rand replaced by an entropy stream); HMAC/AES assumed lawful (abstract Ops); backoff.Retry + context modelled as 'the script runs out'; the reference BMC in the harness (sim.go) is an independent Go transcription of the spec used for the model-free verdicts Handshake payload retries (buildAndSendPayload): handshake_payload_retries (same datagram re-sent once per lost / undecodable reply before each of the three exchanges' replies; result and datagrams of the loss-free run), tied by the hs correspondence.",
         "technique": 'Lean 4 proof (refinement of the loop models to an abstract fold, induction over scripts) + byte-exact differential correspondence + reference verdicts',
         "ref": '§5 C10',
         "proofs": ['Bmc.Proofs.C10'],
